@@ -58,6 +58,17 @@ Theorem same_hash_reregistration_seen_through_api : forall rid fmt l0 ops n c t 
 Proof. exact same_hash_reregistration_api_lemma. Qed.
 Print Assumptions same_hash_reregistration_seen_through_api.
 
+(* The registry never looks at the identity of a class object, only at its hash: replacing the class objects in the
+   calls by others with the same hashes (ANY f that keeps cls_hash; e.g. swapping K1 = (1,1) and K1b = (1,2)) changes the
+   whole run - every result, the registry, the library - by exactly that replacement.  (Also what makes the
+   orbit enumeration of the harness under K1 <-> K1b complete as far as the model goes.) *)
+Theorem class_objects_never_inspected : forall rid fmt (f : N * N -> N * N) l0 ops,
+  (forall c, cls_hash (f c) = cls_hash c) ->
+  run rid fmt rempty l0 (map (ren_op f) ops) =
+  let '(r, l, xs) := run rid fmt rempty l0 ops in (ren_state f r, l, map (ren_out f) xs).
+Proof. exact object_renaming_lemma. Qed.
+Print Assumptions class_objects_never_inspected.
+
 (* Special case c' = c: registering the very class object that already holds the name changes nothing at all
    (registry, tag sets, library). *)
 Theorem same_class_reregistration_noop : forall rid fmt l0 ops n c t,
@@ -217,6 +228,12 @@ Example unprotected_builtin_overwritten_then_removed :
   (let '(_, l, outs) := run 7%N (fmt_of FShorthand) rempty guarded ops in (ltags l, outs))
     = ([(slot, OBuiltin)], [RErr ETagProtected; RErr ENotRegistered]).
 Proof. vm_compute. repeat split. Qed.
+
+(* a hash-preserving renaming that is not the identity exists: the swap of K1 and K1b *)
+Example object_renaming_nontrivial :
+  let f := fun c : N * N => if N.eqb (fst c) 1 then (fst c, 3 - snd c)%N else c in
+  (forall h o, cls_hash (f (h, o)) = cls_hash (h, o)) /\ f (1, 1)%N = (1, 2)%N /\ f (1, 2)%N = (1, 1)%N /\ f (0, 0)%N = (0, 0)%N.
+Proof. split; [intros h o; simpl; destruct (N.eqb h 1); reflexivity | repeat split]. Qed.
 
 (* the tree check is not vacuous: a two-level forest with the right observations is accepted, with a wrong one refused *)
 Example tree_check_discriminates :
